@@ -145,13 +145,12 @@ theorem decode_after_stream (multi : Bool) (s : Strm) (hs : s.Ok) (rest : List N
       = afterStream multi (s.bytes ++ rest).length ((s.bytes ++ rest).length + 1 - s.blocks.length) rest s.data s.blks cap :=
   decode_stream multi s.c s.fs hs.1 s.blocks hs.2.1 hs.2.2 rest cap hcap
 
-/-- **C12, general form**: a first stream, then any LIST of further streams, each preceded by stream padding whose
-length is a multiple of four, then any number of trailing zero bytes: the reader returns the concatenated
-data, consumes everything, and reports the blocks of the last stream. -/
-theorem xz_concat_list (s₀ : Strm) (h₀ : s₀.Ok) (ss : List (Nat × Strm)) (hss : ∀ x ∈ ss, x.1 % 4 = 0 ∧ x.2.Ok)
+/-- general form with the trailing zeros unrestricted: the outcome is decided by `t % 4` -/
+theorem xz_concat_list_gen (s₀ : Strm) (h₀ : s₀.Ok) (ss : List (Nat × Strm)) (hss : ∀ x ∈ ss, x.1 % 4 = 0 ∧ x.2.Ok)
     (t : Nat) (cap : Nat) (hcap : (s₀.data ++ catData ss).length ≤ cap) :
     Xz.decode true (s₀.bytes ++ (catBytes ss ++ List.replicate t 0)) cap
-      = .ok (s₀.data ++ catData ss) (s₀.bytes ++ (catBytes ss ++ List.replicate t 0)).length (finalBlks ss s₀.blks) := by
+      = if t % 4 ≠ 0 then .err .invalidData else
+        .ok (s₀.data ++ catData ss) (s₀.bytes ++ (catBytes ss ++ List.replicate t 0)).length (finalBlks ss s₀.blks) := by
   rw [List.length_append] at hcap
   rw [decode_after_stream true s₀ h₀ _ cap (by omega)]
   have hl := strm_bytes_length s₀
@@ -160,13 +159,37 @@ theorem xz_concat_list (s₀ : Strm) (h₀ : s₀.Ok) (ss : List (Nat × Strm)) 
     (by rw [List.length_append]) hl.1
     (by simp only [List.length_append, List.length_replicate]; omega) (by omega)
 
+/-- **C12, general form**: a first stream, then any LIST of further streams, each preceded by stream padding whose
+length is a multiple of four, then trailing stream padding (`t` zero bytes, `t % 4 = 0`): the reader returns the
+concatenated data, consumes everything, and reports the blocks of the last stream. -/
+theorem xz_concat_list (s₀ : Strm) (h₀ : s₀.Ok) (ss : List (Nat × Strm)) (hss : ∀ x ∈ ss, x.1 % 4 = 0 ∧ x.2.Ok)
+    (t : Nat) (ht : t % 4 = 0) (cap : Nat) (hcap : (s₀.data ++ catData ss).length ≤ cap) :
+    Xz.decode true (s₀.bytes ++ (catBytes ss ++ List.replicate t 0)) cap
+      = .ok (s₀.data ++ catData ss) (s₀.bytes ++ (catBytes ss ++ List.replicate t 0)).length (finalBlks ss s₀.blks) := by
+  rw [xz_concat_list_gen s₀ h₀ ss hss t cap hcap, if_neg (by omega)]
+
+/-- **C12**: a valid stream (or list of streams with aligned paddings) followed by `t` zero bytes with
+`t % 4 ≠ 0` and nothing else is rejected -/
+theorem xz_misaligned_trailing_padding (s₀ : Strm) (h₀ : s₀.Ok) (ss : List (Nat × Strm))
+    (hss : ∀ x ∈ ss, x.1 % 4 = 0 ∧ x.2.Ok) (t : Nat) (ht : t % 4 ≠ 0) (cap : Nat)
+    (hcap : (s₀.data ++ catData ss).length ≤ cap) :
+    Xz.decode true (s₀.bytes ++ (catBytes ss ++ List.replicate t 0)) cap = .err .invalidData := by
+  rw [xz_concat_list_gen s₀ h₀ ss hss t cap hcap, if_pos ht]
+
+/-- single-stream special case of `xz_misaligned_trailing_padding` -/
+theorem xz_misaligned_trailing_padding_one (s : Strm) (hs : s.Ok) (t : Nat) (ht : t % 4 ≠ 0) (cap : Nat)
+    (hcap : s.data.length ≤ cap) :
+    Xz.decode true (s.bytes ++ List.replicate t 0) cap = .err .invalidData := by
+  have := xz_misaligned_trailing_padding s hs [] (by intro x hx; cases hx) t ht cap (by simpa [catData] using hcap)
+  simpa [catBytes] using this
+
 /-- **C12, two streams** (possibly different check types / filters / blocks) with `k` bytes of stream padding -/
 theorem xz_concat_two (s₁ s₂ : Strm) (h₁ : s₁.Ok) (h₂ : s₂.Ok) (k : Nat) (hk : k % 4 = 0) (cap : Nat)
     (hcap : (s₁.data ++ s₂.data).length ≤ cap) :
     Xz.decode true (s₁.bytes ++ List.replicate k 0 ++ s₂.bytes) cap
       = .ok (s₁.data ++ s₂.data) (s₁.bytes ++ List.replicate k 0 ++ s₂.bytes).length s₂.blks := by
   have := xz_concat_list s₁ h₁ [(k, s₂)] (by intro x hx; simp only [List.mem_singleton] at hx; subst hx; exact ⟨hk, h₂⟩)
-    0 cap (by simpa [catData] using hcap)
+    0 (by decide) cap (by simpa [catData] using hcap)
   simpa [catBytes, catData, finalBlks] using this
 
 /-- stream padding whose length is not a multiple of four, followed by the magic of another stream, is rejected
@@ -254,6 +277,9 @@ example : Xz.decode true ((Strm.mk .crc32 [.lzma2 4096] []).bytes ++ List.replic
 #print axioms xz_roundtrip'
 #print axioms xz_exact_consumption
 #print axioms xz_concat_list
+#print axioms xz_concat_list_gen
+#print axioms xz_misaligned_trailing_padding
+#print axioms xz_misaligned_trailing_padding_one
 #print axioms xz_concat_two
 #print axioms xz_misaligned_padding
 #print axioms xz_garbage_after_stream
